@@ -39,6 +39,13 @@
 //! self.ctx.drops_to_generate.push_back(ty); (or clones_)             enqueue
 //! let type_id = ty.type_id();                                        (no effect, skipped)
 //! ```
+//!   Tolerated, because they change nothing that is emitted: the runtime lookup written as
+//!   `match self.get_runtime_drop(ty) { Some(x) => { … } None => {} }`, any name for the bound
+//!   function (the `Drop` / `emit_clone` statement must use that name), the name of the generated
+//!   function built in a local first or by a free helper `fn h(ty: TyRef) -> String` of the same
+//!   file (`name_template` evaluates these to `::generated::drop_{type_id}` /
+//!   `::generated::clone_{type_id}`; `generate_drop` / `generate_clone` must give the function
+//!   they generate the same name).
 //! * the arms of `needs_drop` / `needs_clone` (`match ty { … }`) as `(KPat, NeedArm)` pairs in
 //!   source order: `false` → `.no`, `true` → `.yes`, `fields.iter().any(|&(_, t)| self.needs_X(t))`
 //!   → `.anyField .X`, `variants.iter().flat_map(|v| &v.1).any(|&t| self.needs_X(t))` →
@@ -221,58 +228,189 @@ fn is_hook(st: &syn::Stmt) -> bool {
     norm(st).starts_with("#[cfg(feature=\"verif-hooks\")]")
 }
 
-/// the statements of a block of `call_drop_of` / `call_clone_function` → flat `CStmt`s
-fn call_stmts(fname: &str, stmts: &[syn::Stmt], out: &mut Vec<String>) -> Result<(), String> {
+/// What a name-building expression of the glue functions evaluates to, as a template:
+/// `format!("::generated::drop_{type_id}")` with `let type_id = ty.type_id();` in scope, a local
+/// bound to such an expression, or a call `helper(ty)` of a free function of the same file whose
+/// body is such an expression.
+fn name_template(file: &syn::File, expr: &str, env: &[(String, String)], depth: u32) -> Result<String, String> {
+    if depth > 4 {
+        return Err(format!("name expression `{expr}` nests too deep"));
+    }
+    if let Some(r) = expr.strip_prefix("format!(\"") {
+        let lit = r.strip_suffix("\")").ok_or(format!("`{expr}`: format! with arguments is outside the translated subset"))?;
+        if lit.matches('{').count() != 1 || !lit.ends_with("{type_id}") {
+            return Err(format!("`{expr}`: only `{{type_id}}` may be interpolated"));
+        }
+        match env.iter().rev().find(|e| e.0 == "type_id") {
+            Some((_, init)) if init == "ty.type_id()" => return Ok(lit.to_string()),
+            _ => return Err(format!("`{expr}`: `type_id` is not `ty.type_id()` here")),
+        }
+    }
+    if expr.chars().all(|c| c.is_alphanumeric() || c == '_') {
+        if let Some((_, init)) = env.iter().rev().find(|e| e.0 == expr) {
+            let init = init.clone();
+            return name_template(file, &init, env, depth + 1);
+        }
+        return Err(format!("unknown local `{expr}`"));
+    }
+    if let Some(h) = expr.strip_suffix("(ty)") {
+        if h.chars().all(|c| c.is_alphanumeric() || c == '_') {
+            let f = find::func(file, h, None)?;
+            if norm(&f.sig.inputs) != "ty:TyRef" || f.impl_of.is_some() {
+                return Err(format!("helper `{h}` is not a free function of `ty: TyRef`"));
+            }
+            let mut henv = vec![];
+            let n = f.block.stmts.len();
+            for (i, st) in f.block.stmts.iter().enumerate() {
+                if i + 1 == n {
+                    let tail = norm(st);
+                    if tail.ends_with(';') {
+                        return Err(format!("helper `{h}` has no tail expression"));
+                    }
+                    return name_template(file, &tail, &henv, depth + 1);
+                }
+                match pure_let(st) {
+                    Some(b) => henv.push(b),
+                    None => return Err(format!("helper `{h}`: statement outside the translated subset: {}", st.to_token_stream())),
+                }
+            }
+        }
+    }
+    Err(format!("name expression `{expr}` is outside the translated subset"))
+}
+
+/// `let x = <ty.type_id() | format!(…) | helper(ty)>;`: a binding without effect on what is emitted
+fn pure_let(st: &syn::Stmt) -> Option<(String, String)> {
+    let syn::Stmt::Local(l) = st else { return None };
+    let syn::Pat::Ident(id) = &l.pat else { return None };
+    let init = l.init.as_ref()?;
+    if init.diverge.is_some() || id.by_ref.is_some() {
+        return None;
+    }
+    let e = norm(&init.expr);
+    let helper_call = e.strip_suffix("(ty)").is_some_and(|h| !h.is_empty() && h.chars().all(|c| c.is_alphanumeric() || c == '_'));
+    if e == "ty.type_id()" || (e.starts_with("format!(\"") && e.ends_with("\")")) || helper_call {
+        return Some((id.ident.to_string(), e));
+    }
+    None
+}
+
+struct CallCtx<'a> {
+    file: &'a syn::File,
+    fname: &'a str,
+    env: Vec<(String, String)>,
+}
+
+/// the statements of a block of `call_drop_of` / `call_clone_function` → flat `CStmt`s;
+/// `rt` = the name the enclosing `if let Some(<rt>) = self.get_runtime_…(ty)` binds
+fn call_stmts(cx: &mut CallCtx, stmts: &[syn::Stmt], rt: Option<&str>, out: &mut Vec<String>) -> Result<(), String> {
+    let fname = cx.fname;
+    let is_drop = fname == "call_drop_of";
     for st in stmts {
         if is_hook(st) {
             continue;
         }
         let s = norm(st);
-        // (statement, the glue function it may occur in ("" = both), CStmt ("" = no effect))
-        let table: [(&str, &str, &str); 10] = [
-            ("letsize=self.layout_of(ty).unwrap().size()asu32;", "", ".letSize"),
-            ("lettype_id=ty.type_id();", "", ""),
-            ("return;", "", ".ret"),
-            ("self.emit_memcpy(to.into(),from.into(),size);", "call_clone_function", ".memcpy"),
-            ("self.emit(Instruction::Drop{var:var.clone(),drop:Some(drop),});", "call_drop_of", ".runtime"),
-            ("self.emit_clone(to.into(),from.into(),clone_fn);", "call_clone_function", ".runtime"),
-            ("self.emit(Instruction::Call{to:None,ctx:None,func:format!(\"::generated::drop_{type_id}\").into(),args:vec![var],return_ptr:None,});", "call_drop_of", ".callGen"),
-            ("self.emit(Instruction::Call{to:None,ctx:None,func:format!(\"::generated::clone_{type_id}\").into(),args:vec![from.clone().into()],return_ptr:Some(to),});", "call_clone_function", ".callGen"),
-            ("self.ctx.drops_to_generate.push_back(ty);", "call_drop_of", ".enqueue"),
-            ("self.ctx.clones_to_generate.push_back(ty);", "call_clone_function", ".enqueue"),
-        ];
-        if let Some((_, only, x)) = table.iter().find(|t| t.0 == s) {
-            if !only.is_empty() && *only != fname {
-                return Err(format!("{fname}: statement of the other glue function: {}", st.to_token_stream()));
-            }
-            if !x.is_empty() {
-                out.push(x.to_string());
-            }
+        if s == "letsize=self.layout_of(ty).unwrap().size()asu32;" {
+            out.push(".letSize".into());
             continue;
         }
+        if let Some(b) = pure_let(st) {
+            cx.env.push(b);
+            continue;
+        }
+        if s == "return;" {
+            out.push(".ret".into());
+            continue;
+        }
+        if !is_drop && s == "self.emit_memcpy(to.into(),from.into(),size);" {
+            out.push(".memcpy".into());
+            continue;
+        }
+        if let Some(x) = rt {
+            let want = if is_drop {
+                format!("self.emit(Instruction::Drop{{var:var.clone(),drop:Some({x}),}});")
+            } else {
+                format!("self.emit_clone(to.into(),from.into(),{x});")
+            };
+            if s == want {
+                out.push(".runtime".into());
+                continue;
+            }
+        }
+        let (pre, post, template, queue) = if is_drop {
+            ("self.emit(Instruction::Call{to:None,ctx:None,func:", ".into(),args:vec![var],return_ptr:None,});", "::generated::drop_{type_id}", "self.ctx.drops_to_generate.push_back(ty);")
+        } else {
+            ("self.emit(Instruction::Call{to:None,ctx:None,func:", ".into(),args:vec![from.clone().into()],return_ptr:Some(to),});", "::generated::clone_{type_id}", "self.ctx.clones_to_generate.push_back(ty);")
+        };
+        if let Some(f) = s.strip_prefix(pre).and_then(|r| r.strip_suffix(post)) {
+            let t = name_template(cx.file, f, &cx.env, 0).map_err(|e| format!("{fname}: {e}"))?;
+            if t != template {
+                return Err(format!("{fname}: calls `{t}`, expected `{template}`"));
+            }
+            out.push(".callGen".into());
+            continue;
+        }
+        if s == queue {
+            out.push(".enqueue".into());
+            continue;
+        }
+        // `if <cond> { … }` without else, or `match self.get_runtime_…(ty) { Some(x) => { … } None => {} }`
+        let want_rt = if is_drop { "self.get_runtime_drop(ty)" } else { "self.get_runtime_clone(ty)" };
         if let syn::Stmt::Expr(syn::Expr::If(e), _) = st {
             if e.else_branch.is_some() {
                 return Err(format!("{fname}: `if … else` is outside the translated subset: {}", st.to_token_stream()));
             }
             let c = norm(&e.cond);
-            let want_pred = if fname == "call_drop_of" { "needs_drop" } else { "needs_clone" };
-            let want_rt = if fname == "call_drop_of" { "letSome(drop)=self.get_runtime_drop(ty)" } else { "letSome(clone_fn)=self.get_runtime_clone(ty)" };
+            let want_pred = if is_drop { "needs_drop" } else { "needs_clone" };
+            let mut bound: Option<String> = None;
             let cond = if c == format!("!self.{want_pred}(ty)") {
                 ".notNeeds"
             } else if c == "size==0" {
                 ".sizeZero"
             } else if c == "size>0" || c == "size!=0" {
                 ".sizePos"
-            } else if c == want_rt {
+            } else if let Some(x) = c.strip_prefix("letSome(").and_then(|r| r.strip_suffix(&format!(")={want_rt}"))) {
+                bound = Some(x.to_string());
                 ".hasRuntime"
             } else {
                 return Err(format!("{fname}: condition outside the translated subset: {}", e.cond.to_token_stream()));
             };
             let mut body = vec![];
-            call_stmts(fname, &e.then_branch.stmts, &mut body)?;
+            let mark = cx.env.len();
+            call_stmts(cx, &e.then_branch.stmts, bound.as_deref().or(rt), &mut body)?;
+            cx.env.truncate(mark);
             out.push(format!(".ifc {cond} {}", body.len()));
             out.extend(body);
             continue;
+        }
+        if let syn::Stmt::Expr(syn::Expr::Match(m), _) = st {
+            if norm(&m.expr) == want_rt && m.arms.len() == 2 {
+                let mut some_arm = None;
+                let mut none_ok = false;
+                for a in &m.arms {
+                    let p = norm(&a.pat);
+                    if a.guard.is_some() {
+                        return Err(format!("{fname}: guarded arm"));
+                    }
+                    if p == "None" && matches!(norm(&a.body).as_str(), "{}" | "()") {
+                        none_ok = true;
+                    } else if let Some(x) = p.strip_prefix("Some(").and_then(|r| r.strip_suffix(')')) {
+                        some_arm = Some((x.to_string(), &a.body));
+                    }
+                }
+                if let (Some((x, body_expr)), true) = (some_arm, none_ok) {
+                    if let syn::Expr::Block(b) = &**body_expr {
+                        let mut body = vec![];
+                        let mark = cx.env.len();
+                        call_stmts(cx, &b.block.stmts, Some(&x), &mut body)?;
+                        cx.env.truncate(mark);
+                        out.push(format!(".ifc .hasRuntime {}", body.len()));
+                        out.extend(body);
+                        continue;
+                    }
+                }
+            }
         }
         return Err(format!("{fname}: statement outside the translated subset: {}", st.to_token_stream()));
     }
@@ -286,8 +424,31 @@ fn call_fn(file: &syn::File, fname: &str, params: &str) -> Result<Vec<String>, S
         return Err(format!("{fname}: parameters are `{sig}`, expected `{params}`"));
     }
     let mut out = vec![];
-    call_stmts(fname, &f.block.stmts, &mut out)?;
+    let mut cx = CallCtx { file, fname, env: vec![] };
+    call_stmts(&mut cx, &f.block.stmts, None, &mut out)?;
     Ok(out)
+}
+
+/// the name `generate_drop` / `generate_clone` gives the function it generates must be the one
+/// `call_drop_of` / `call_clone_function` call
+fn generated_name(file: &syn::File, fname: &str, template: &str) -> Result<(), String> {
+    let f = find::func(file, fname, None)?;
+    let mut env = vec![];
+    for st in &f.block.stmts {
+        if let Some(b) = pure_let(st) {
+            env.push(b);
+            continue;
+        }
+        let s = norm(st);
+        if let Some(e) = s.strip_prefix("letident=").and_then(|r| r.strip_suffix(".into();")) {
+            let t = name_template(file, e, &env, 0).map_err(|e| format!("{fname}: {e}"))?;
+            if t != template {
+                return Err(format!("{fname}: names the generated function `{t}`, the call sites call `{template}`"));
+            }
+            return Ok(());
+        }
+    }
+    Err(format!("{fname}: `let ident = <name>.into();` not found"))
 }
 
 // -- needs_drop / needs_clone -------------------------------------------------------------------
@@ -397,6 +558,8 @@ fn glueloops(repo: &Path) -> Result<String, String> {
     out.push_str(&format!("/-- `generate_clone_body_enum`: body of `for (ty, layout) in layouts` -/\ndef cloneEnum : List Step := {}\n\n", list(&ce)));
     let dcall = call_fn(&drops, "call_drop_of", "&mutself,var:Operand,ty:TyRef")?;
     let ccall = call_fn(&clones, "call_clone_function", "&mutself,from:Var,to:Var,ty:TyRef")?;
+    generated_name(&drops, "generate_drop", "::generated::drop_{type_id}")?;
+    generated_name(&clones, "generate_clone", "::generated::clone_{type_id}")?;
     out.push_str(&format!("/-- `Lowerer::call_drop_of(var, ty)`, statement by statement -/\ndef dropCall : List CStmt := {}\n\n", list(&dcall)));
     out.push_str(&format!("/-- `Lowerer::call_clone_function(from, to, ty)`, statement by statement -/\ndef cloneCall : List CStmt := {}\n\n", list(&ccall)));
     out.push_str(&format!("/-- `Lowerer::needs_drop`: the arms of `match ty` -/\ndef needsDropArms : List (KPat × NeedArm) := {}\n\n", list(&needs_arms(&drops, "needs_drop")?)));
